@@ -15,6 +15,7 @@ import CalmVerif.Spec.LexSeg
 import CalmVerif.Spec.LinesRef
 import CalmVerif.Proofs.LexerTerm
 import CalmVerif.Proofs.LexerTables
+import CalmVerif.Proofs.LexerPos
 
 namespace CalmVerif.Props.C06
 open CalmVerif.Model.TokenRegex CalmVerif.Model.PlyLex CalmVerif.Model.Lexer
@@ -62,44 +63,17 @@ theorem tokens_partition_input (text : List Char) (wc yc : Bool) (toks : List To
     have := (hall t ht).2 ha
     exact ⟨this.2, this.1⟩
 
-/-- a segmentation is ordered and non-overlapping: offsets strictly increase, each token ends before the next starts -/
-theorem segmented_ordered (cm : Bool) (text : List Char) :
-    ∀ (pos : Nat) (l : List (Nat × List Char)), Segmented cm text pos l →
-      (∀ x ∈ l, pos ≤ x.1) ∧ l.Pairwise (fun a b => a.1 < b.1 ∧ a.1 + a.2.length ≤ b.1) := by
-  intro pos l
-  induction l generalizing pos with
-  | nil => intro _; simp
-  | cons pv rest ih =>
-    obtain ⟨p, v⟩ := pv
-    intro h
-    obtain ⟨hp, _, hne, _, _, hrest⟩ := h
-    obtain ⟨h1, h2⟩ := ih _ hrest
-    have hpos : 0 < v.length := by cases v with
-      | nil => exact absurd rfl hne
-      | cons => simp
-    refine ⟨?_, ?_⟩
-    · intro x hx
-      simp at hx
-      rcases hx with rfl | hx
-      · exact hp
-      · have := h1 x hx; omega
-    · simp only [List.pairwise_cons]
-      refine ⟨?_, h2⟩
-      intro x hx
-      have := h1 x hx
-      constructor <;> omega
-
 /-- corollary of `tokens_partition_input`: offsets strictly increase and tokens do not overlap -/
 theorem tokens_strictly_ordered (text : List Char) (wc yc : Bool) (toks : List Token)
     (h : lexStandalone text wc yc = (toks, none)) :
     (segments toks).Pairwise (fun a b => a.1 < b.1 ∧ a.1 + a.2.length ≤ b.1) :=
-  (segmented_ordered _ _ _ _ (tokens_partition_input text wc yc toks h).1).2
+  (LexerSegm.segmented_ordered _ _ _ _ (tokens_partition_input text wc yc toks h).1).2
 
-/-- D: what ply skips as `t_ignore` is exactly ES5 WhiteSpace (§7.2: TAB VT FF SP NBSP BOM + Zs) plus U+2028 and
-    U+2029 — which ES5 classifies as LINE TERMINATORS, not white space (suspected defect KF-06a: a bare U+2028/U+2029
-    never reaches `t_LINE_TERMINATOR`); in state `regex` it is SP and TAB. -/
-theorem ignore_set_is_es5_whitespace_plus_ls_ps :
-    (∀ c, isIgnored .initial c = true ↔ (isWhiteSpace c = true ∨ c = '\u2028' ∨ c = '\u2029')) ∧
+/-- D `ignore_set_is_es5_whitespace`: what ply skips as `t_ignore` in state INITIAL is exactly ES5 WhiteSpace
+    (§7.2: TAB VT FF SP NBSP BOM + Zs) — in particular no line terminator (U+2028 / U+2029 used to be in it:
+    KF-06a, fixed) —; in state `regex` it is SP and TAB. -/
+theorem ignore_set_is_es5_whitespace :
+    (∀ c, isIgnored .initial c = true ↔ isWhiteSpace c = true) ∧
     (∀ c, isIgnored .regex c = true ↔ (c = ' ' ∨ c = '\t')) := by
   constructor
   · intro c
@@ -108,23 +82,19 @@ theorem ignore_set_is_es5_whitespace_plus_ls_ps :
     · intro h
       unfold isIgnored at h
       have hm : c ∈ ignoreOf .initial := by simpa using h
-      have := List.all_eq_true.mp h1 c hm
-      simpa [or_assoc] using this
+      exact List.all_eq_true.mp h1 c hm
     · intro h
       have key : ∀ n, c.toNat = n → c = Char.ofNat n := by
         intro n hn; rw [← hn, Char.ofNat_toNat]
       have hall := List.all_eq_true.mp h2
-      have hc : ∃ n, n ∈ ([0x09, 0x0B, 0x0C, 0x20, 0xA0, 0xFEFF] ++ zs ++ [0x2028, 0x2029]) ∧ c = Char.ofNat n := by
-        rcases h with h | h | h
-        · unfold isWhiteSpace at h
-          simp only [Bool.or_eq_true, List.contains_iff_mem] at h
-          rcases h with h | h
-          · exact ⟨c.toNat, by simp only [List.mem_append]; exact Or.inl (Or.inl h), key _ rfl⟩
-          · exact ⟨c.toNat, by simp only [List.mem_append]; exact Or.inl (Or.inr h), key _ rfl⟩
-        · exact ⟨0x2028, by simp, h⟩
-        · exact ⟨0x2029, by simp, h⟩
-      obtain ⟨n, hn, rfl⟩ := hc
-      exact hall n hn
+      have hc : c.toNat ∈ ([0x09, 0x0B, 0x0C, 0x20, 0xA0, 0xFEFF] ++ zs) := by
+        unfold isWhiteSpace at h
+        simp only [Bool.or_eq_true, List.contains_iff_mem] at h
+        simp only [List.mem_append]
+        exact h
+      have := hall _ hc
+      rw [← key _ rfl] at this
+      exact this
   · intro c
     unfold isIgnored
     rw [LexerGap.ignore_regex_eq]
@@ -181,6 +151,49 @@ theorem keyword_exact (text : List Char) (wc yc : Bool) (toks : List Token) (e :
     String.ofList t.value = sp :=
   (id_keyword_iff text wc yc toks e h t ht hreal
     (Or.inr (hty ▸ List.mem_map_of_mem (f := (·.2)) hK)) sp K hK).mp hty
+
+/-! ### positions -/
+
+open CalmVerif.Spec.LinesRef in
+/-- T `positions_are_counted` (full strength): in a stand-alone lexing of ANY text (also one that ends in an
+    error: the statement is about the tokens produced), the recorded line and column of every non-inserted token are
+    exactly those obtained by counting ES5 line terminator sequences (LF, CR, CR LF as one, U+2028, U+2029 — also
+    inside comments, string continuations and regular expression literals) up to its offset
+    (Spec.LinesRef.lineCol).  Invariant behind it (Proofs.LexerPos.Inv): `newline_idx` is 0 followed by the end
+    offsets of all terminator sequences before `lexpos`, `lineno - 1` their number, and `lexpos` never splits a
+    CR LF pair (Proofs.LexerEnds: no token rule ends its match on a CR that is followed by LF). -/
+theorem positions_are_counted (text : List Char) (wc yc : Bool) (toks : List Token) (e : Option Err)
+    (h : lexStandalone text wc yc = (toks, e)) :
+    ∀ t ∈ toks, t.auto = false →
+      t.lineno = (lineCol text t.lexpos).1 ∧ t.colno = ((lineCol text t.lexpos).2 : Int) := by
+  unfold lexStandalone at h
+  have hinv : LexerPos.Inv text (init text wc yc) := by
+    refine ⟨rfl, by simp [init], by simp [init, terminatorEnds], by simp [init, terminatorEnds], ?_⟩
+    intro ⟨h0, _⟩
+    simp [init] at h0
+  obtain ⟨new, hnew, hall⟩ := LexerPos.lexAll_pos text _ _ [] toks e rfl hinv h
+  simp at hnew
+  subst hnew
+  exact hall
+
+open CalmVerif.Spec.LinesRef in
+/-- regression for the former defect KF-06a (U+2028 / U+2029 were in `t_ignore`, `b` was reported at 1:3):
+    a bare U+2028 is a line terminator, `b` is at 2:1 -/
+example :
+    (lexStandalone ['a', '\u2028', 'b'] false false).2 = none ∧
+    (lexStandalone ['a', '\u2028', 'b'] false false).1.map (fun t => (t.lexpos, t.lineno, t.colno)) =
+      [(0, 1, 1), (2, 2, 1)] ∧
+    lineCol ['a', '\u2028', 'b'] 2 = (2, 1) := by
+  decide +kernel
+
+/-- non-vacuity of `positions_are_counted`: all five terminator kinds, bare, inside a comment and in a string
+    continuation -/
+example :
+    (lexStandalone "a\r\nb /*\n*/ c\rd '\\\u2028' e\u2029f".toList false false).2 = none ∧
+    (lexStandalone "a\r\nb /*\n*/ c\rd '\\\u2028' e\u2029f".toList false false).1.map
+        (fun t => (String.ofList t.value, t.lineno, t.colno)) =
+      [("a", 1, 1), ("b", 2, 1), ("c", 3, 4), ("d", 4, 1), ("'\\\u2028'", 4, 3), ("e", 5, 3), ("f", 6, 1)] := by
+  decide +kernel
 
 /-! ### non-vacuity -/
 
